@@ -110,11 +110,11 @@ type c01shape struct{ ch, k, s, e, extra int }
 func c01Shapes(c *core.Ctx, r *core.Rand, n int) []c01shape {
 	shapes := []c01shape{{1, 1, 0, 1, 0}, {2, 3, 0, 3, 0}, {3, 5, 1, 4, 0}, {2, 4, 1, 2, 1}, {3, 4, 0, 2, 2}, {1, 0, 0, 0, 0}, {4, 3, 3, 3, 0}, {2, 2, 0, 0, 1},
 		{2, 300, 0, 300, 0}, {3, 420, 20, 400, 1}} // more than 256 frames
-	chans := []int{1, 2, 3, 4, 5, 6, 7, 8, 13, 64}
+	chans := []int{1, 2, 3, 4, 5, 6, 7, 8, 13, 64, 65, 70, 130, 257}
 	for i := 0; i < n; i++ {
 		ch := chans[r.Intn(len(chans))]
 		k := r.Range(0, 40)
-		if ch == 64 {
+		if ch >= 64 {
 			k = r.Range(0, 6)
 		} else if i%9 == 8 {
 			k = r.Range(257, 700) // more than 256 frames: paths that depend on the amount of data
